@@ -17,14 +17,21 @@ def run(check, ctx, value_of):
     mod = repo.module(SS)
     # ---- split(): tape of distinct 16-byte draws -------------------------------------------
     fn = repo.func(mod, "Shamir.split")
-    for (k, n, ssss) in ((2, 3, False), (3, 5, False), (3, 4, True), (5, 6, False), (4, 4, True)):
+    Z = bytes(16)
+    # (k, n, ssss, secret, positions of all-zero draws): a zero coefficient and a zero secret are ordinary field elements
+    CASES = [(2, 3, False, None, ()), (3, 5, False, None, ()), (3, 4, True, None, ()), (5, 6, False, None, ()), (4, 4, True, None, ()),
+             (3, 4, False, Z, ()), (3, 4, True, Z, ()), (2, 3, False, None, (0,)), (4, 5, False, None, (0,)), (4, 5, True, None, (1,)),
+             (4, 5, False, Z, (2,)), (3, 3, False, Z, (0, 1)), (2, 2, True, bytes(15) + b"\x01", (0,))]
+    for (k, n, ssss, sec, zeros) in CASES:
         draws = []
 
-        def m_rng(i, a, kw, st, node, draws=draws):
+        def m_rng(i, a, kw, st, node, draws=draws, zeros=zeros):
             v = bytes([0x10 + len(draws)]) * 8 + bytes([0xF0 - len(draws)]) * 8
+            if len(draws) in zeros:
+                v = bytes(16)
             draws.append(v)
             return v
-        secret = bytes(range(0x40, 0x50))
+        secret = bytes(range(0x40, 0x50)) if sec is None else sec
         it = Interp(repo, max_depth=5, budget=8000000,
                     extra_models={"Crypto.Random.get_random_bytes": m_rng})
         res = it.run(mod, fn, {"k": k, "n": n, "secret": secret, "ssss": ssss})
@@ -34,7 +41,8 @@ def run(check, ctx, value_of):
         want = [(i, s.to_bytes(16, "big")) for i, s in gf2.split(coeffs, int.from_bytes(secret, "big"), n, ssss)]
         okd = len(draws) == k - 1
         ok = okd and isinstance(got, list) and [tuple(x) if isinstance(x, (tuple, list)) else x for x in got] == want
-        check.ob("K", "K|split.%d.%d.%s" % (k, n, "ssss" if ssss else "native"), ok, mod.path, fn.lineno,
+        check.ob("K", "K|split.%d.%d.%s%s%s" % (k, n, "ssss" if ssss else "native", "" if sec is None else ".secret=%s" % secret.hex().lstrip("0") or "0",
+                                                "".join(".zero%d" % z for z in zeros)), ok, mod.path, fn.lineno,
                  extracted="%d draws of the random source (k-1 = %d); shares %s" % (
                      len(draws), k - 1, "equal to the Horner evaluation at x = 1..n" if ok else
                      "differ from the reference: %r..." % (got[:1] if isinstance(got, list) else got,)),
